@@ -265,8 +265,12 @@ static void run_cell(seqx::Runner &R, int ad, int out, int tim, int cthrow) {
                 };
                 if (ad == A_CB_AWAIT)
                     cocls::callback_await<cocls::future<int> &>(fn, fut);
-                else
-                    cocls::callback_await_alloc<cocls::reusable_storage, cocls::future<int> &>(storage, fn, fut);
+                else {
+                    // the callback is handed over as a named object that is gone before the operation completes: the helper takes
+                    // its callback by value and must own it
+                    auto short_lived = fn;
+                    cocls::callback_await_alloc<cocls::reusable_storage, cocls::future<int> &>(storage, short_lived, fut);
+                }
                 R.step();
                 if (tim == T_LATER) {
                     if (probe.calls) R.fail("cb/fired-before-resolution", "callback ran before the awaited future was resolved");
